@@ -27,8 +27,22 @@ from contracts.shapefn import Tok
 class CoefStack:
     """numpy.asarray(poly.coefficients): all coefficient arrays stacked along a new first axis"""
 
-    def __init__(self, poly):
-        self.poly = poly
+    def __init__(self, poly, C=None):
+        self.poly, self.C = poly, C
+
+    def sx_getitem(self, ex, idx, node):
+        """stack[:, k]: for every term its coefficient array at index k of the first axis (a list-like of N arrays)"""
+        from engine.polymodel import at0, drop_axis, extent
+        from engine.logic import ndim
+        if isinstance(idx, tuple) and len(idx) == 2 and idx[0] == slice(None, None, None) and isinstance(idx[1], (int, z3.ArithRef)) \
+                and not isinstance(idx[1], bool) and self.C is not None:
+            P, C, k = self.poly, self.C, idx[1]
+            ex.oblige(f"pre({ex.site('stack_index')}).in_bounds", z3.And(ndim(P.shape) >= 1, 0 <= k, k < extent(P.shape, z3.IntVal(0))), "index", node)
+            sub = drop_axis(P.shape, 0)
+            sq = V.Seq(P.N, lambda t: Arr(sub, lambda j: C(t, at0(k, j)), "real", P.dtype, Region("fresh")), "list")
+            sq.slice_of = (P, k)
+            return sq
+        raise U("index into the stacked coefficients", node)
 
 
 class NumpyResult:
@@ -54,6 +68,15 @@ def nonzero_mask(ex, p):
 
 def install_axioms(reg):
     prev_asarray = reg.fn["numpy.asarray"]
+    prev_array = reg.fn["numpy.array"]
+
+    @reg.axiom("numpy.array")
+    def array(ex, args, kw, node):
+        a = args[0] if args else None
+        src = getattr(a, "source", None)
+        if isinstance(a, V.Seq) and src is not None and isinstance(src[0], Poly) and len(src) > 1 and len(args) == 1 and not kw:
+            return CoefStack(src[0], src[1])           # numpy.array(list(poly.coefficients)): stacked copies
+        return prev_array(ex, args, kw, node)
     prev_any = reg.fn["numpy.any"]
     prev_all = reg.fn["numpy.all"]
 
@@ -62,7 +85,7 @@ def install_axioms(reg):
         a = args[0]
         src = getattr(a, "source", None)
         if isinstance(a, V.Seq) and src is not None and isinstance(src[0], Poly) and len(args) == 1 and not kw:
-            return CoefStack(src[0])
+            return CoefStack(src[0], src[1])
         if isinstance(a, Arr) and a.kind == "bool" and len(args) == 1 and set(kw) == {"dtype"} and \
                 isinstance(kw["dtype"], V.BuiltinRef) and kw["dtype"].name == "bool":
             return a                     # already boolean: numpy returns the very same array
